@@ -47,13 +47,26 @@ def main():
             if any(x in tn for x in FLAKY):
                 continue
             ok = False
-            for _ in range(4):
+            for _ in range(8):
                 rc1, _o = sh("go test -vet=off -count=1 -run '^%s$' ./cmd/ ./parser/ ./process/ ./types/" % tn, cwd=wt)
                 if rc1 == 0:
                     ok = True
                     break
+                time.sleep(2)
             if not ok:
-                still.append(f)
+                # does the same test fail on the UNPATCHED tree under the same conditions (loaded machine)?  then it says nothing about the change
+                rcd, diff0 = sh("git diff", cwd=wt)
+                open(wt + ".tmp.patch", "w").write(diff0)
+                sh("git apply -R %s.tmp.patch" % wt, cwd=wt)
+                base_fail = 0
+                for _ in range(4):
+                    rc2, _o = sh("go test -vet=off -count=1 -run '^%s$' ./cmd/ ./parser/ ./process/ ./types/" % tn, cwd=wt)
+                    base_fail += rc2 != 0
+                sh("git apply %s.tmp.patch" % wt, cwd=wt)
+                os.remove(wt + ".tmp.patch")
+                report.setdefault("environmental", []).append("%s fails %d/4 on the unpatched tree too" % (tn, base_fail))
+                if base_fail < 2:
+                    still.append(f)
         fails = still if (rc != 0 and fails) else fails
         report["suite_passes"] = rc == 0 or not still or all(any(x in f for x in FLAKY) for f in still)
         report["suite_fail_lines"] = fails[:5]
